@@ -112,14 +112,14 @@ VARIABLES
   \* ---- periodic monitor ----
   ppc, pv, pcont, pretry, pnorm, plast, pafter, ppoll, pgap,
   \* ---- simulator ----
-  srs, srr, sos, sor, sfe, srun, spoll, snpoll, scode, sunmet, snotified, skills, sfile, scall, swait, sseen,
+  srs, srr, sos, sor, sfe, srun, spoll, snpoll, scode, sunmet, snotified, skills, sfile, scall, swait, sseen, spst,
   \* ---- tables ----
   tabc, trk, tnow
 
 taskVars == <<k, st, disp, rc, lock, wpc, fin, epoch, ev, opc, seen, sigs, late, lost, res>>
 monVars == <<dm, tpc, tsaw, tval, cancel, timers, nact, nerr, terr, actc>>
 perVars == <<ppc, pv, pcont, pretry, pnorm, plast, pafter, ppoll, pgap>>
-simVars == <<srs, srr, sos, sor, sfe, srun, spoll, snpoll, scode, sunmet, snotified, skills, sfile, scall, swait, sseen>>
+simVars == <<srs, srr, sos, sor, sfe, srun, spoll, snpoll, scode, sunmet, snotified, skills, sfile, scall, swait, sseen, spst>>
 tabVars == <<tabc, trk, tnow>>
 vars == <<taskVars, monVars, perVars, simVars, tabVars>>
 
@@ -166,7 +166,7 @@ PerIdle ==
 SimIdle ==
   /\ srs = "none" /\ srr = NoRc /\ sos = "none" /\ sor = NoRc /\ sfe = FALSE /\ srun = "none" /\ spoll = "none"
   /\ snpoll = 0 /\ scode = 0 /\ sunmet = FALSE /\ snotified = FALSE /\ skills = 0 /\ sfile = "-"
-  /\ scall = "idle" /\ swait = "idle" /\ sseen = NoRes
+  /\ scall = "idle" /\ swait = "idle" /\ sseen = NoRes /\ spst = "none"
 TabIdle == tabc = 0 /\ trk = <<>> /\ tnow = 0
 
 -----------------------------------------------------------------------------
@@ -509,7 +509,7 @@ CancelLeadsToLastAction == (LastAction /\ cancel /\ ppc # "off") ~> (plast = 1 \
 (*   scall (kill() == terminate()): if isAlive(): real code := -9; with the *)
 (*         condition lock: notify if executing                              *)
 
-SS == <<srs, srr, sos, sor, sfe, srun, spoll, snpoll, scode, sunmet, snotified, skills, sfile, scall, swait, sseen>>
+SS == <<srs, srr, sos, sor, sfe, srun, spoll, snpoll, scode, sunmet, snotified, skills, sfile, scall, swait, sseen, spst>>
 EdgeS(l) == Emit => PrintT(ToJson(<<SS, l, SS'>>))
 SimInit == TaskIdle /\ MonIdle /\ PerIdle /\ SimIdle /\ TabIdle
 Frozen3 == UNCHANGED <<taskVars, monVars, perVars, tabVars>>
@@ -523,7 +523,7 @@ SimView == IF SimAlive THEN <<"T", sor, "None", "running">> ELSE <<"F", sor, Sim
 SCreate(c, u) ==
   /\ srs = "none"
   /\ srs' = "submitted" /\ sos' = "submitted" /\ srun' = "new" /\ spoll' = "new" /\ scode' = c /\ sunmet' = u
-  /\ UNCHANGED <<srr, sor, sfe, snpoll, snotified, skills, sfile, scall, swait, sseen>>
+  /\ UNCHANGED <<srr, sor, sfe, snpoll, snotified, skills, sfile, scall, swait, sseen, spst>>
 
 SRunStart == srun = "new" /\ srun' = "sleep" /\ UNCHANGED <<srs, srr, snotified, sfile>>
 SRunWake == srun = "sleep" /\ srs' = "executing" /\ srun' = "x1" /\ UNCHANGED <<srr, snotified, sfile>>      \* the overhead has passed
@@ -551,9 +551,10 @@ SRunLast == IF SimStateLast THEN {"e4"} ELSE {"f1", "k1"}
 SRunEnd == srun \in SRunLast \cup {"rel"} /\ srun' = "done" /\ UNCHANGED <<srs, srr, snotified, sfile>>
 SRunRel == Fine /\ srun \in SRunLast /\ srun' = "rel" /\ UNCHANGED <<srs, srr, snotified, sfile>>     \* the lock is released, _run has not yet returned
 SRun == /\ (SRunStart \/ SRunWake \/ SRunExec \/ SRunResume \/ SRunCode \/ SRunFile \/ SRunState \/ SRunEnd \/ SRunRel \/ SRunPeek \/ SRunCodeLate)
-        /\ UNCHANGED <<sos, sor, sfe, spoll, snpoll, scode, sunmet, skills, scall, swait, sseen>>
+        /\ UNCHANGED <<sos, sor, sfe, spoll, snpoll, scode, sunmet, skills, scall, swait, sseen, spst>>
 
-SPollStep ==
+\* the code as it is: A: observed code := real code; B: observed state := real state; C: observed code := real code; D
+SPollStepOld ==
   /\ spoll \in {"new", "a", "b", "c"}
   /\ LET from == CASE spoll = "new" -> 1 [] spoll = "a" -> 2 [] spoll = "b" -> 3 [] OTHER -> 4
          doA == from = 1 /\ sor # srr
@@ -564,22 +565,40 @@ SPollStep ==
           [] doC -> sor' = srr /\ spoll' = "c" /\ UNCHANGED <<sos, sfe>>
           [] OTHER -> IF SimAlive THEN spoll' = "sleep" /\ UNCHANGED <<sos, sor, sfe>>
                                   ELSE spoll' = "done" /\ sfe' = TRUE /\ UNCHANGED <<sos, sor>>
+  /\ UNCHANGED <<srs, srr, srun, snpoll, scode, sunmet, snotified, skills, sfile, scall, swait, sseen, spst>>
+\* the repaired poll(): real state read into a local (spst); A: observed code := real code; B: observed state := that local; D
+SPollStepNew ==
+  /\ spoll \in {"new", "r", "a", "b"}
+  /\ LET read == IF spoll = "new" THEN srs ELSE spst
+         doA == spoll \in {"new", "r"} /\ sor # srr
+         doB == ~doA /\ spoll \in {"new", "r", "a"} /\ sos # read
+     IN /\ spst' = read
+        /\ CASE doA -> sor' = srr /\ spoll' = "a" /\ UNCHANGED <<sos, sfe>>
+             [] doB -> sos' = read /\ spoll' = "b" /\ UNCHANGED <<sor, sfe>>
+             [] OTHER -> IF SimAlive THEN spoll' = "sleep" /\ UNCHANGED <<sos, sor, sfe>>
+                                     ELSE spoll' = "done" /\ sfe' = TRUE /\ UNCHANGED <<sos, sor>>
   /\ UNCHANGED <<srs, srr, srun, snpoll, scode, sunmet, snotified, skills, sfile, scall, swait, sseen>>
+SPollStep == IF SimStateLast THEN SPollStepNew ELSE SPollStepOld
 SPollStmt ==       \* Fine: a statement of poll() that finds nothing to copy
   /\ Fine
-  /\ \/ spoll = "new" /\ sor = srr /\ spoll' = "a"
-     \/ spoll = "a" /\ sos = srs /\ spoll' = "b"
-     \/ spoll = "b" /\ sor = srr /\ spoll' = "c"
+  /\ IF SimStateLast
+     THEN \/ spoll = "new" /\ spoll' = "r" /\ spst' = srs                      \* real_state = self._real_state
+          \/ spoll = "r" /\ sor = srr /\ spoll' = "a" /\ spst' = spst
+          \/ spoll = "a" /\ sos = spst /\ spoll' = "b" /\ spst' = spst
+     ELSE /\ \/ spoll = "new" /\ sor = srr /\ spoll' = "a"
+             \/ spoll = "a" /\ sos = srs /\ spoll' = "b"
+             \/ spoll = "b" /\ sor = srr /\ spoll' = "c"
+          /\ spst' = spst
   /\ UNCHANGED <<srs, srr, sos, sor, sfe, srun, snpoll, scode, sunmet, snotified, skills, sfile, scall, swait, sseen>>
 SPollNext ==
   /\ spoll = "sleep" /\ snpoll < MaxSimPoll /\ spoll' = "new" /\ snpoll' = snpoll + 1
-  /\ UNCHANGED <<srs, srr, sos, sor, sfe, srun, scode, sunmet, snotified, skills, sfile, scall, swait, sseen>>
+  /\ UNCHANGED <<srs, srr, sos, sor, sfe, srun, scode, sunmet, snotified, skills, sfile, scall, swait, sseen, spst>>
 SPoll == SPollStep \/ SPollNext \/ SPollStmt
 
 \* kill() / terminate() by a thread of the owner
 SKillCall(w) ==
   /\ srs # "none" /\ skills < MaxKill /\ scall \in {"idle", "done"} /\ skills' = skills + 1 /\ scall' = "new"
-  /\ UNCHANGED <<srs, srr, sos, sor, sfe, srun, spoll, snpoll, scode, sunmet, snotified, sfile, swait, sseen>>
+  /\ UNCHANGED <<srs, srr, sos, sor, sfe, srun, spoll, snpoll, scode, sunmet, snotified, sfile, swait, sseen, spst>>
 SKillNotify == snotified' = (snotified \/ (srs = "executing" /\ srun = "cwait"))
 SKillStep ==
   /\ \/ /\ scall = "new"
@@ -590,20 +609,20 @@ SKillStep ==
      \/ /\ scall = "k1" /\ srr' = srr
         /\ IF SimLockHeld THEN scall' = "lock" /\ snotified' = snotified ELSE scall' = "done" /\ SKillNotify
      \/ /\ scall = "lock" /\ ~SimLockHeld /\ srr' = srr /\ scall' = "done" /\ SKillNotify
-  /\ UNCHANGED <<srs, sos, sor, sfe, srun, spoll, snpoll, scode, sunmet, skills, sfile, swait, sseen>>
+  /\ UNCHANGED <<srs, sos, sor, sfe, srun, spoll, snpoll, scode, sunmet, skills, sfile, swait, sseen, spst>>
 \* a thread calling wait()
 SWaitCall == srs # "none" /\ swait = "idle" /\ swait' = "new"
-             /\ UNCHANGED <<srs, srr, sos, sor, sfe, srun, spoll, snpoll, scode, sunmet, snotified, skills, sfile, scall, sseen>>
+             /\ UNCHANGED <<srs, srr, sos, sor, sfe, srun, spoll, snpoll, scode, sunmet, snotified, skills, sfile, scall, sseen, spst>>
 SWaitStep ==
   /\ \/ swait = "new" /\ swait' = "chk" /\ sseen' = sseen
      \/ swait = "chk" /\ (IF sfe THEN swait' = "done" /\ sseen' = SimView ELSE swait' = "blocked" /\ sseen' = sseen)
      \/ swait = "blocked" /\ sfe /\ swait' = "done" /\ sseen' = SimView
-  /\ UNCHANGED <<srs, srr, sos, sor, sfe, srun, spoll, snpoll, scode, sunmet, snotified, skills, sfile, scall>>
+  /\ UNCHANGED <<srs, srr, sos, sor, sfe, srun, spoll, snpoll, scode, sunmet, snotified, skills, sfile, scall, spst>>
 SQuery == srs # "none" /\ UNCHANGED SS
 
 \* Condition.wait(exec_time) returns when notified or when the time is over; sleep(overhead) when the time is over
 SimRunHow == IF srun \in {"sleep", "cwait"} /\ ~(srun = "cwait" /\ snotified) THEN "timeout" ELSE "-"
-SimRest == UNCHANGED <<sos, sor, sfe, spoll, snpoll, scode, sunmet, skills, scall, swait, sseen>>
+SimRest == UNCHANGED <<sos, sor, sfe, spoll, snpoll, scode, sunmet, skills, scall, swait, sseen, spst>>
 SimNext ==
   /\ Frozen3
   /\ \/ \E c \in SimCodes, u \in SimUnmet : SCreate(c, u) /\ EdgeS(<<"Create", c, u, "SCreate">>)
@@ -629,7 +648,7 @@ SimFair == SimSpec /\ WF_vars(Frozen3 /\ SRun) /\ WF_vars(Frozen3 /\ SPoll) /\ W
 
 SimTypeOK == /\ srs \in {"none", "submitted", "executing", "finished"} /\ sos \in {"none", "submitted", "executing", "finished"}
              /\ srun \in {"none", "new", "sleep", "x1", "cwait", "u1", "e2", "e2n", "e3", "f1", "k1", "e4", "rel", "done"}
-             /\ spoll \in {"none", "new", "a", "b", "c", "sleep", "done"} /\ scall \in {"idle", "new", "k1", "lock", "done"}
+             /\ spoll \in {"none", "new", "r", "a", "b", "c", "sleep", "done"} /\ scall \in {"idle", "new", "k1", "lock", "done"}
 SimEventOnlyWhenDead == sfe => ~SimAlive
 SimObservedFollowsReal == (sos = "finished" => srs = "finished") /\ (sos = "executing" => srs \in {"executing", "finished"})
 SimObservedCodeWasReal == sor \in {NoRc, scode, -9, 1}
